@@ -11,7 +11,15 @@ static Bytes pattern(size_t n, uint32_t salt) {   // position-dependent, so a sh
 }
 static Bytes hwid_pattern(size_t units, uint32_t salt) {   // UCS-2LE without NUL unit
     Bytes b;
-    for (size_t i = 0; i < units; i++) { uint8_t lo = (uint8_t)(0x21 + (i * 5 + salt) % 90); b.push_back(lo); b.push_back((uint8_t)((i + salt) % 3 == 0 ? 0x04 : 0x00)); }
+    for (size_t i = 0; i < units; i++) {
+        // three kinds of code unit, never U+0000: ASCII (high byte 0), a unit whose LOW byte is 0 (U+0100, U+3000, U+4E00 ...), and one with both bytes set
+        uint32_t mix = (uint32_t)(i + 1) * 2654435761u ^ (salt * 40503u + 0x9E37u); mix ^= mix >> 13; mix *= 0x5bd1e995u; mix ^= mix >> 15;
+        unsigned kind = mix % 4;   // pseudo-random order, so that every kind follows every other kind somewhere
+        uint8_t lo = (uint8_t)(0x21 + (i * 5 + salt) % 90), hi = (uint8_t)(1 + (i + salt) % 0x4E);
+        if (kind <= 1) { b.push_back(lo); b.push_back(0x00); }
+        else if (kind == 2) { b.push_back(0x00); b.push_back(hi); }
+        else { b.push_back(lo); b.push_back(hi); }
+    }
     return b;
 }
 
